@@ -130,6 +130,10 @@ func (p *Parser) Parse(buf []byte, args ...any) (any, error) {
 	p.result = nil
 	p.noff = -1
 	p.line = 1
+	p.plus = false
+	p.lastKey = ""
+	p.lastStrKey = ""
+	p.quoteDelim = 0
 	p.mode = valueMap
 	p.mi = 0
 	var err error
@@ -198,6 +202,10 @@ func (p *Parser) ParseReader(r io.Reader, args ...any) (data any, err error) {
 	p.result = nil
 	p.noff = -1
 	p.line = 1
+	p.plus = false
+	p.lastKey = ""
+	p.lastStrKey = ""
+	p.quoteDelim = 0
 	p.mi = 0
 	buf := make([]byte, readBufSize)
 	eof := false
